@@ -1,4 +1,5 @@
 CONSTANT Want = {"c03"}
+CONSTANT Conform = FALSE
 INIT TraceInit
 NEXT TraceNext
 INVARIANTS C03_Durations
